@@ -28,6 +28,9 @@ FileText == JoinWith(HeaderCells, Sep) \o <<LF>> \o Concat([i \in DOMAIN data |-
 \* what matrix_to_csv writes: the header and the numbers, no row names
 CsvText == JoinWith(colNames, Sep) \o <<LF>> \o Concat([i \in DOMAIN data |-> JoinWith([j \in DOMAIN data[i] |-> IntText(data[i][j])], Sep) \o <<LF>>])
 
+\* The matrix handed to matrix_to_csv is a function (row, column) -> value; how an implementation lays it out in memory
+\* (row-major, column-major, a strided window of a larger array) is not part of the state, so CsvText cannot depend on it.
+Layouts == {"row-major", "column-major", "strided"}
 \* meaning of a matrix text: split into lines and cells, numbers by value
 Parse(text, withRows) ==
   LET ls == Lines(text)
